@@ -101,7 +101,7 @@ def _policy_wire(pol):
         if k in pol:
             out[k] = f2b(pol[k])
     if "maxiter" in pol:
-        out["maxiter"] = int(pol["maxiter"])
+        out["maxiter"] = max(0, int(pol["maxiter"]))  # `while it < maxiter` never runs for maxiter <= 0
     return out
 
 
@@ -134,7 +134,7 @@ def oracle(case):
     for i, r in enumerate(recs):
         where = {"step": i, "policy": pol, "accel": case["accel"]}
         if r["raised"]:
-            if kind == "rls" and pol["maxiter"] == 0:
+            if kind == "rls" and pol["maxiter"] <= 0:
                 continue
             return {**where, "why": "update/step raised", "error": r.get("raised_type")}
         L, Lprev = r["L"], r["Lprev"]
@@ -176,7 +176,7 @@ def oracle(case):
                             "L": L, "want": want, "Lbb1": last1, "Lbb2": last2, "kappa": pol["kappa"]}
         if kind in ("ls", "rls"):
             tests = r["tests"]
-            if pol["maxiter"] == 0:
+            if pol["maxiter"] <= 0:
                 continue
             start = Lprev if kind == "ls" else Lprev * pol["gd"]
             if not tests:
@@ -314,7 +314,7 @@ def check_case(ctx, model, case, origin="gen"):
         if r["raised"]:
             ctx.count(f"raised:{r['raised']}")
             try:
-                model.call("search", gu=f2b(pol.get("gu", 2.0)), maxiter=int(pol.get("maxiter", 1)), L=f2b(r["Lprev"]), tests=[])
+                model.call("search", gu=f2b(pol.get("gu", 2.0)), maxiter=max(0, int(pol.get("maxiter", 1))), L=f2b(r["Lprev"]), tests=[])
                 mraised = None
             except ModelErr as e:
                 mraised = e.kind
@@ -366,7 +366,7 @@ def check_case(ctx, model, case, origin="gen"):
             start = Lprev if kind == "ls" else Lprev * pol["gd"]
             tests = [[f2b(t["fz"]), f2b(t["fq"])] for t in r["tests"]]
             try:
-                out = model.call("search", gu=f2b(pol["gu"]), maxiter=int(pol["maxiter"]), L=f2b(start), tests=tests)
+                out = model.call("search", gu=f2b(pol["gu"]), maxiter=max(0, int(pol["maxiter"])), L=f2b(start), tests=tests)
                 mL, mtried = b2f(out["L"]), out["tried"]
             except ModelErr:
                 mL, mtried = Lprev, 0  # maxiter = 0: plain line search returns pgm.L without a trial
@@ -624,7 +624,8 @@ class _StubSearchPGM:
     def f_quad_approx(self, z, y, L):
         i = len(self.tried)
         self.tried.append(float(L))
-        return 1.0 if (i < len(self.accepts) and self.accepts[i]) else -1.0
+        a = self.accepts[i] if i < len(self.accepts) else False
+        return float("nan") if a is None else (1.0 if a else -1.0)
 
     def x_step(self, y, L):
         return y
@@ -647,10 +648,11 @@ def _stub_search_call(case):
         return {"L": None, "tried": pgm.tried, "raised": common.err_kind(e), "raised_type": type(e).__name__}
 
 
-def _oracle_stub_search(case):
+def _oracle_stub_search(case, r=None):
     """the property on the implementation for one prescribed acceptance pattern: L0*gamma_u^k for the least accepted
     k < maxiter, the last value tried otherwise, exactly k+1 candidates evaluated, geometric trial values"""
-    r = _stub_search_call(case)
+    if r is None:
+        r = _stub_search_call(case)
     acc, mx, gu = case["accepts"], case["maxiter"], case["gu"]
     start = case["L"] if case["kind"] == "ls" else case["L"] * case["gd"]
     if mx == 0:
@@ -659,7 +661,7 @@ def _oracle_stub_search(case):
         return None  # robust search with maxiter = 0 raises (modelled as it is)
     if r["raised"]:
         return {"why": "line search raised", **r, "case": case}
-    k = next((i for i, a in enumerate(acc) if a), mx - 1)
+    k = next((i for i, a in enumerate(acc) if a), mx - 1)  # a NaN model value (None) never satisfies f(z) <= f_quad
     want = [start * gu ** j for j in range(k + 1)]
     if r["tried"] != want or r["L"] != want[-1]:
         return {"why": "line search does not return the first accepted value of L0*gamma_u^k (last tried if none), after k+1 trials",
@@ -670,14 +672,15 @@ def _oracle_stub_search(case):
 
 
 def check_stub_search(ctx, model):
-    """exhaustive small scope: both line-search classes on a stub solver for every acceptance pattern of every budget
-    0..5 (2^0+…+2^5 = 63 patterns each) against the Lean `searchLoop`, two parameter sets"""
+    """exhaustive small scope: both line-search classes on a stub solver for every pattern of outcomes of the acceptance
+    test (accepted / rejected / NaN quadratic model, which is never accepted) for every budget 0..4 (3^0+…+3^4 = 121
+    patterns each, budget 5 with the two-valued patterns) against the Lean `searchLoop`, two parameter sets"""
     import itertools
 
     n = 0
     for (L0, gu, gd) in ((3.0, 2.0, 0.5), (0.75, 1.5, 0.25)):
         for maxiter in range(0, 6):
-            for accepts in itertools.product([False, True], repeat=maxiter):
+            for accepts in itertools.product([False, True, None] if maxiter <= 4 else [False, True], repeat=maxiter):
                 for kind in ("ls", "rls"):
                     case = {"what": "stub-search", "kind": kind, "L": L0, "gu": gu, "gd": gd, "maxiter": maxiter, "accepts": list(accepts)}
                     r = _stub_search_call(case)
@@ -686,7 +689,7 @@ def check_stub_search(ctx, model):
                              None if maxiter == 0 else f"stubsearch:{kind}:{L0}:{maxiter}:{accepts}")
                     ctx.count(f"stub-search:{kind}")
                     start = L0 if kind == "ls" else L0 * gd
-                    tests = [[f2b(0.0), f2b(1.0 if a else -1.0)] for a in accepts]
+                    tests = [[f2b(0.0), f2b(float("nan") if a is None else (1.0 if a else -1.0))] for a in accepts]
                     try:
                         out = model.call("search", gu=f2b(gu), maxiter=int(maxiter), L=f2b(start), tests=tests)
                         m = {"L": b2f(out["L"]), "tried": out["tried"], "raised": None}
@@ -696,10 +699,10 @@ def check_stub_search(ctx, model):
                     if not same:
                         ctx.disagree("stepsize.stub.search", case, r, m, oracle=_oracle_stub_search)
                         continue
-                    bad = _oracle_stub_search(case)
+                    bad = _oracle_stub_search(case, r)
                     if bad is not None:
                         ctx.disagree("stepsize.stub.search.property", case, bad, None, oracle=_oracle_stub_search)
-    ctx.extra["exhaustive"] = f"line-search control flow: all acceptance patterns for maxiter <= 5, both classes, 2 parameter sets ({n} calls)"
+    ctx.extra["exhaustive"] = f"line-search control flow: all accept/reject/NaN patterns for maxiter <= 4 and accept/reject for maxiter = 5, both classes, 2 parameter sets ({n} calls)"
 
 
 def _corpus():
